@@ -107,9 +107,13 @@ def stress(kind, n, origins, prefill, threads, after, symptom, rounds=20000, tim
     ok, err = build()
     if not ok: return None, "replayer does not build: " + err, 0
     txt = spec_text(kind, n, origins, prefill, threads, after, []).replace("segments \n", "") + "free %d\n" % rounds
+    crashed = None
     try:
         p = subprocess.run([BIN], input=txt, stdout=subprocess.PIPE, stderr=subprocess.PIPE, text=True, timeout=timeout_s)
         out = p.stdout
+        if p.returncode < 0 or p.returncode in (134, 139):
+            crashed = "the real code crashed natively (%s) after %d free-running rounds of the model's thread programs: memory corruption (double free / use after free)" % (
+                "signal %d" % -p.returncode if p.returncode < 0 else "exit status %d" % p.returncode, out.count("\nround ") + (1 if out.startswith("round ") else 0))
     except subprocess.TimeoutExpired as e:
         out = (e.stdout or b"").decode() if isinstance(e.stdout, bytes) else (e.stdout or "")
     cur = None; n_rounds = 0
@@ -128,6 +132,7 @@ def stress(kind, n, origins, prefill, threads, after, symptom, rounds=20000, tim
         elif f[0] == "panic" and cur is not None: cur["panics"].append(" ".join(f[1:]))
     s = flush(cur)
     if s: return {"segments": "free-running threads, round %d" % (n_rounds - 1), "history": {"events": cur["ev"]}, "symptom": s}, "", n_rounds
+    if crashed: return {"segments": "free-running threads, round %d" % n_rounds, "history": {"events": (cur or {"ev": []})["ev"]}, "symptom": crashed}, "", n_rounds
     return None, "symptom not reproduced in %d free-running rounds either" % n_rounds, n_rounds
 
 
